@@ -7,6 +7,7 @@
 From Coq Require Import ZArith List Bool.
 From Alliance Require Import Num KMap Types Monad Model Step Spec Hoare.
 From Alliance.Proofs Require Import SortedInv Frames Queues RedelCleanup.
+From Alliance.Proofs Require Import RedelSync.
 Import ListNotations.
 Open Scope Z_scope.
 
@@ -48,3 +49,26 @@ Theorem C15_matured_entries_are_cleaned_up : forall h ct l r, let s := run init_
     kget (redelidx s') [r_src r; ct; r_denom r; r_dst r; r_del r] = None.
 Proof. exact matured_redelegations_are_cleaned_up. Qed.
 Print Assumptions C15_matured_entries_are_cleaned_up.
+
+(* every redelegation record has an entry in the time queue at its completion time (all reachable states) ... *)
+Theorem C15_every_record_is_queued : forall h del dn dst ct r, let s := run init_state h in
+  kget (redels s) [del; dn; dst; ct] = Some r ->
+  exists l e, kget (redelq s) [ct] = Some l /\ In e l /\ r_del e = del /\ r_denom e = dn /\ r_dst e = dst.
+Proof. exact every_record_is_queued. Qed.
+Print Assumptions C15_every_record_is_queued.
+
+(* ... so when CompleteRedelegations has run, no record that completed strictly before the block time is left ... *)
+Theorem C15_no_matured_record_is_left : forall h, let s := run init_state h in
+  exists s', complete_redelegations s = Ok tt s' /\
+    forall del dn dst ct r, kget (redels s') [del; dn; dst; ct] = Some r -> now s <= ct.
+Proof. exact no_matured_record_is_left. Qed.
+Print Assumptions C15_no_matured_record_is_left.
+
+(* ... and the restriction on onward hops is lifted: after that end of block whatever still blocks a delegator
+   from redelegating out of a validator is a redelegation into it that is really pending *)
+Theorem C15_restriction_is_lifted : forall h del dst dn, let s := run init_state h in
+  exists s', complete_redelegations s = Ok tt s' /\
+    (has_redelegation s' del dst dn = true ->
+     exists ct r, kget (redels s') [del; dn; dst; ct] = Some r /\ now s <= ct).
+Proof. exact restriction_is_lifted. Qed.
+Print Assumptions C15_restriction_is_lifted.
